@@ -20,6 +20,9 @@ type checkFn func(c *Ctx, ev *Evidence) ([]Violation, error)
 
 var registry = map[string]checkFn{
 	"C01": runC01,
+	"C05": runC05,
+	"C06": runC06,
+	"C16": runC16,
 	"C19": runC19,
 }
 
